@@ -23,6 +23,11 @@ CHECKS = {
          "G2 enumerates every tag-free string up to length 6/8 over a 9-symbol alphabet and compares the render with a reference scanner for the two escapes; G1 builds templates from segment lists whose expected output is known by construction (text, <%= %> values incl. arbitrary string literals, silent tags, comments, nested in if/else/for/fn/helper/contentFor blocks). Byte equality and err==nil are required. Exhaustive for G2 within its bound; G1 is random sampling.",
          "Trusted: the 30-line reference scanner and the generator's bookkeeping of expected output; abstentions listed in evidence assumptions.",
          "DESIGN.md §5 C02"),
+ "C01": ("exploration",
+         "runtime taint monitor: marked hostile payloads driven through generated plumbing routes of the real engine; output judged by a model-free escaping scanner and an expected-output model",
+         "Unique-id payloads with hostile bodies are sent from 16 kinds of source through 19 plumbing steps to 9 sinks; every (source, step, sink) triple and every step pair is enumerated, deeper routes are sampled. The output must equal the generator's expected output (strings escaped exactly once, trusted HTML verbatim exactly once), judged entity-agnostically, and must contain no raw special character outside trusted payloads. Held on the routes generated; routes outside the grammar are not covered.",
+         "Trusted: html/template's escaper as the canonical escaping; generator bookkeeping of the expected segment list; safe alphabet of literal text.",
+         "DESIGN.md §5 C01"),
 }
 NOT_YET = "check not built yet in this round (see DESIGN.md §5 for the planned monitor)"
 
